@@ -22,12 +22,15 @@ use crate::seams::{key, Cfg, ManualClock, MemIO, Out};
 pub const CS: u64 = 1; // S's index for C's connection
 pub const MS: u64 = 2; // S's index for the attacker's connection
 pub const SC: u64 = 1; // C's index for its (static) connection to S
+pub const MC: u64 = 2; // C's index for the connection it accepted from the attacker
 
 #[derive(Clone, Copy, Debug, PartialEq, Eq, PartialOrd, Ord)]
 pub enum Target {
     SonM,
     SonC,
     ConS,
+    /// the connection C accepted from the attacker (C has a dialed and an accepted connection)
+    ConM,
 }
 
 #[derive(Clone, Copy, Debug, PartialEq, Eq, PartialOrd, Ord)]
@@ -95,9 +98,11 @@ fn collect(sim: &mut Sim) -> Vec<(u8, u64)> {
     }
     for o in sim.c.io.take_outbox() {
         match o {
-            Out::Send { buffer, .. } => {
+            Out::Send { peer, buffer } => {
                 note(sim, &buffer);
-                sim.to_s.push_back(buffer);
+                if peer == SC {
+                    sim.to_s.push_back(buffer);
+                }
             }
             Out::Event(e) => {
                 if let Some(i) = parse(&e) {
@@ -136,6 +141,9 @@ pub fn start() -> Result<Sim, String> {
     }
     if !sim.s.net(NetworkEvent::PeerConnectionResult { result: Ok((MS, None)) }).is_done() {
         return Err("S accept M".into());
+    }
+    if !sim.c.net(NetworkEvent::PeerConnectionResult { result: Ok((MC, None)) }).is_done() {
+        return Err("C accept M".into());
     }
     collect(&mut sim);
     Ok(sim)
@@ -198,7 +206,7 @@ pub fn enabled(sim: &Sim, thorough: bool) -> Vec<Act> {
         v.push(Act::DeliverToS);
         v.push(Act::DropToS);
     }
-    let targets = [Target::SonM, Target::SonC, Target::ConS];
+    let targets = [Target::SonM, Target::SonC, Target::ConS, Target::ConM];
     for t in targets {
         for k in 0..sim.observed.len().min(if thorough { 8 } else { 6 }) {
             v.push(Act::Replay(t, k as u8));
@@ -239,6 +247,7 @@ pub fn apply(sim: &mut Sim, a: Act, rep: &mut Report, hist: &[Act]) -> bool {
         Target::SonM => (0, MS),
         Target::SonC => (0, CS),
         Target::ConS => (1, SC),
+        Target::ConM => (1, MC),
     };
     let r = if node_id == 0 { sim.s.net(incoming_raw(conn, bytes.clone())) } else { sim.c.net(incoming_raw(conn, bytes.clone())) };
     if !r.is_done() {
@@ -317,7 +326,11 @@ pub fn digest(sim: &Sim) -> Hash {
     let kind = |b: &Vec<u8>| -> String {
         match Message::deserialize(b.clone()) {
             Ok(Message::HandshakeChallenge(c)) => format!("Ch({})", name(&Some(c.challenge))),
-            Ok(Message::HandshakeResponse(r)) => format!("Re({},{},v{})", crate::seams::key_name(&r.public_key), name(&Some(r.challenge)), r.core_version.minor),
+            Ok(Message::HandshakeResponse(r)) => {
+                // which observed challenge the signature is over is part of the message's meaning
+                let over = sim.chals.iter().position(|c| verify(c, &r.signature, &r.public_key)).map(|i| i as i64).unwrap_or(-1);
+                format!("Re({},{},over{},v{})", crate::seams::key_name(&r.public_key), name(&Some(r.challenge)), over, r.core_version.minor)
+            }
             Ok(m) => format!("tag{}", m.get_type_value()),
             Err(_) => "bad".into(),
         }
@@ -351,13 +364,31 @@ fn replay(hist: &[Act], rep: &mut Report) -> Option<Sim> {
 
 pub fn main(tier: Tier, _replay: Option<String>) -> i32 {
     let mut rep = Report::new("C17", tier.clone(), "model_checking");
-    let depth = if tier.thorough { 6 } else { 5 };
+    let depth = if tier.thorough { 5 } else { 4 };
     rep.bounds = json!({"depth": depth, "nodes": "S (acceptor of two connections), C (dials S), attacker M (own connection to S + the wire between C and S)", "attacker": "deliver / drop queued messages, replay any observed message to S (either connection) or C, send a challenge with any observed or fresh value, send a response signed by its own key over any observed challenge with a compatible or incompatible version"});
     rep.rule = "breadth-first search over attacker actions on the real handlers; challenges are random per run and referred to by order of observation; state digest = peer tables of S and C (status, key, outstanding challenge renamed), address map, wire queues and attacker knowledge, all symbolically renamed".into();
     rep.assumptions = vec![
         "signatures cannot be forged; the attacker owns key K3 only".into(),
         "a pure relay of a genuine answer to a genuine challenge is inherent to challenge-response without channel binding and is not flagged; a node connected under its own key, a challenge accepted twice, an unsolicited or wrongly-versioned response, and any change to an authenticated connection caused from another connection are".into(),
     ];
+    if let Ok(hs) = std::env::var("VERIF_C17_HISTORY") {
+        // developer aid: one history, actions written as their Debug form separated by ';'
+        let mut sim = start().expect("start");
+        let mut hist: Vec<Act> = vec![];
+        for name in hs.split(';') {
+            let acts = enabled(&sim, true);
+            let Some(a) = acts.iter().find(|a| format!("{:?}", a) == name.trim()).cloned() else {
+                println!("{} is not enabled; enabled: {:?}", name, acts);
+                break;
+            };
+            hist.push(a);
+            let mut r = rep.child();
+            let ok = apply(&mut sim, a, &mut r, &hist);
+            println!("{:?}: applied={} outcomes={:?} violations={:?}", a, ok, r.outcomes.keys().collect::<Vec<_>>(), r.violations.iter().map(|v| v.key.clone()).collect::<Vec<_>>());
+            println!("   S={:?}\n   C={:?}", tables(&sim).0, tables(&sim).2);
+        }
+        return 0;
+    }
     // the peer tables are hash maps whose iteration order some handlers depend on (first peer found
     // with a key); hook H4 makes that order a function of a seed: explore under several
     let map_seeds: Vec<u64> = if tier.thorough { vec![0, 1, 2, 3] } else { vec![0, 1] };
@@ -397,10 +428,10 @@ pub fn main(tier: Tier, _replay: Option<String>) -> i32 {
             }
         }
         rep.outcome_n(&format!("level-{}-new-states", level), next.len() as u64);
-        if next.len() > 4000 {
+        if level < depth && next.len() > 15_000 {
             rep.exhaustive = false;
-            rep.extra.insert("frontier_cap".into(), json!({"level": level, "states": next.len(), "kept": 4000}));
-            next.truncate(4000);
+            rep.extra.insert("frontier_cap".into(), json!({"level": level, "states": next.len(), "kept": 15_000}));
+            next.truncate(15_000);
         }
         frontier = next;
     }
@@ -410,7 +441,7 @@ pub fn main(tier: Tier, _replay: Option<String>) -> i32 {
     rep.extra.insert("peer_map_seeds".into(), json!(map_seeds));
     rep.distinct = all_seen.iter().map(|h| hex::encode(&h[0..8])).collect();
     rep.sample(json!({"history": ["DeliverToC", "DeliverToS", "DeliverToC"], "meaning": "honest handshake completes"}));
-    rep.required_outcomes = vec!["connected:S:K1:genuine-delivery".into(), "connected:C:K0:genuine-delivery".into(), "connected:S:K3:injected".into()];
+    rep.required_outcomes = vec!["connected:S:K1:genuine-delivery".into(), "connected:C:K0:genuine-delivery".into(), "connected:S:K3:injected".into(), "connected:C:K3:injected".into()];
     let _: BTreeMap<u8, u8> = BTreeMap::new();
     rep.finish()
 }
